@@ -123,6 +123,10 @@ func loadForDiffing(ctx context.Context, baseOptions s3db.S3Options, versions []
 }
 
 func (c *ChangesTable) Open() (sqlite.VirtualCursor, error) {
+	return c.open()
+}
+
+func (c *ChangesTable) open() (*ChangesCursor, error) {
 	ctx := c.module.sc.ctx
 	var from *s3db.KV
 	var err error
@@ -146,6 +150,7 @@ func (c *ChangesTable) Open() (sqlite.VirtualCursor, error) {
 	return &ChangesCursor{
 		module:     c.module,
 		t:          c.table,
+		changes:    c,
 		diffCursor: dc,
 	}, nil
 }
@@ -165,6 +170,8 @@ type ChangesCursor struct {
 	currentRow *v1proto.Row
 	diffCursor *kv.DiffCursor
 	eof        bool
+	changes    *ChangesTable
+	scanned    bool
 }
 
 func (c *ChangesCursor) Next() error {
@@ -208,6 +215,16 @@ func (c *ChangesCursor) Column(ctx *sqlite.VirtualTableContext, i int) error {
 }
 
 func (c *ChangesCursor) Filter(_ int, idxStr string, values ...sqlite.Value) error {
+	if c.scanned {
+		// a scan starts over (as the inner table of a join the cursor is filtered once
+		// per outer row), and a diff cannot be rewound: start another one
+		again, err := c.changes.open()
+		if err != nil {
+			return toSqlite(err)
+		}
+		*c = *again
+	}
+	c.scanned = true
 	return toSqlite(c.Next())
 }
 func (c *ChangesCursor) Rowid() (int64, error) {
